@@ -444,4 +444,88 @@ def resolveCtype (deps : List DepNs) (ident : Str) : Option Str :=
     deps.findSome? (fallbackOf ident)
   else ms.findSome? (giNameOf ident)
 
+/-! ### the fixed point of `IntrospectablePass.validate` and the order of the namespace walk
+
+  giscanner/introspectablepass.py, `validate`:
+
+      while True:
+          before = self._count_introspectable()
+          self._namespace.walk(self._introspectable_alias_analysis)
+          self._namespace.walk(self._introspectable_callable_analysis)
+          if self._count_introspectable() == before:
+              break
+
+  `Namespace.walk` visits `Namespace.names` in insertion order, which is the order of the
+  DECLARATIONS (and of the dump entries).  The model keeps the nodes at fixed indices and makes
+  the visiting order a parameter `ord`, so "the declarations were written in another order" is
+  "the walks visit the same nodes in another order".  (C05's model of the same pass,
+  Model/Introspectable.lean, follows every walk of `validate` in namespace order; this one is
+  only about the loop and about what may depend on the order.) -/
+
+inductive IKind where
+  | alias      -- ast.Alias: `_introspectable_alias_analysis`
+  | callable   -- ast.Callable (function, callback, method, vfunc, signal, anonymous callback of a field)
+  | other      -- everything else that is walked (records, fields, properties, constants, ...)
+  deriving DecidableEq, Repr
+
+/-- What the loop reads of one walked node.  `_type_is_introspectable` of a type is a conjunction
+    over the leaves of the type (`Array`/`List`/`Map` recurse): a leaf that does not point into the
+    scanned namespace has a fixed answer, a leaf that points at node `r` of the namespace answers
+    `r.introspectable and not r.skip`.  For an alias the type is its target, for a callable every
+    parameter type and the return type (plus `is_inline`, which is fixed). -/
+structure INode where
+  kind : IKind
+  skip : Bool            -- `obj.skip`, or that of a parent (the callable walk is pruned below a skipped node)
+  ok : Bool              -- all fixed leaves answer True (and the function is not inline)
+  refs : List Nat        -- the walked nodes the other leaves point at (`lookup_typenode`)
+  deriving DecidableEq, Repr
+
+/-- the last lines of `_type_is_introspectable`: `target.introspectable and (not target.skip)` -/
+def refOkI (nodes : List INode) (tf : List Bool) (r : Nat) : Bool :=
+  match nodes[r]? with
+  | none => false
+  | some t => tf.getD r false && !t.skip
+
+/-- every type the node mentions is introspectable, for the current flags `tf` -/
+def condI (nodes : List INode) (tf : List Bool) (n : INode) : Bool :=
+  n.ok && n.refs.all (refOkI nodes tf)
+
+/-- one visit: a node selected by `sel` loses its flag when one of its types is not introspectable -/
+def stepI (sel : INode → Bool) (nodes : List INode) (tf : List Bool) (i : Nat) : List Bool :=
+  match nodes[i]? with
+  | none => tf
+  | some n => if sel n && !condI nodes tf n then tf.set i false else tf
+
+/-- `_introspectable_alias_analysis` at node `i` (no `skip` test, never prunes) -/
+def aliasStepI (nodes : List INode) : List Bool → Nat → List Bool :=
+  stepI (fun n => n.kind == .alias) nodes
+
+/-- `_introspectable_callable_analysis` at node `i`: `if obj.skip: return False`, then the
+    parameter / return / inline tests (the Signal-emitter branch changes no flag) -/
+def callStepI (nodes : List INode) : List Bool → Nat → List Bool :=
+  stepI (fun n => n.kind == .callable && !n.skip) nodes
+
+/-- `Namespace.walk(callback)`, visiting the nodes in the order `ord` -/
+def walkI (step : List Bool → Nat → List Bool) (ord : List Nat) (tf : List Bool) : List Bool :=
+  ord.foldl step tf
+
+/-- body of the `while True:` loop -/
+def roundI (nodes : List INode) (ord : List Nat) (tf : List Bool) : List Bool :=
+  walkI (callStepI nodes) ord (walkI (aliasStepI nodes) ord tf)
+
+/-- `_count_introspectable` (the nodes the loop never touches add a constant) -/
+def cntI (tf : List Bool) : Nat := tf.count true
+
+/-- the `while True:` loop with explicit fuel (`cntI tf + 1` rounds always suffice:
+    `C16_fixpoint_reached`) -/
+def loopI (nodes : List INode) (ord : List Nat) : Nat → List Bool → List Bool
+  | 0, tf => tf
+  | fuel + 1, tf =>
+    let tf' := roundI nodes ord tf
+    if cntI tf' == cntI tf then tf' else loopI nodes ord fuel tf'
+
+/-- a state no visit of either walk changes -/
+def stableI (nodes : List INode) (tf : List Bool) : Bool :=
+  (List.range nodes.length).all fun i => aliasStepI nodes tf i == tf && callStepI nodes tf i == tf
+
 end GIVerif.Order
